@@ -70,13 +70,16 @@ func (app *AppData) Pack(buffer []byte) {
 
 	buffer[0] = byte(dataLength)
 
+	// Every byte of the unit is determined here, whatever the buffer held before.
+	buffer[1] = byte(app.Command>>2) & 3
+
 	if app.Numbered {
 		buffer[1] |= 1<<6 | (app.SeqNumber&15)<<2
 	}
 
-	buffer[1] |= byte(app.Command>>2) & 3
-
-	copy(buffer[2:], app.Data)
+	// Empty data is transmitted as a single zero byte; data beyond the length field is cut off.
+	buffer[2] = 0
+	copy(buffer[2:2+dataLength], app.Data)
 
 	buffer[2] &= 63
 	buffer[2] |= byte(app.Command&3) << 6
